@@ -81,6 +81,26 @@ def probes(ctx, repo):
         ctx.skip("S2", "visit_If", "the rewriter's handling of mismatched branches is not recognisable any more; class S2 is not judged")
     if extra_visits:
         ctx.info(f"the rewriter handles additional node kinds {sorted(extra_visits)}; shapes involving them are not classified (their array forms are not assumed to fail loudly)")
+    # RV: a translation the tested contract says nothing about replaces a loud failure by an unverified array form
+    ctx.rule("RV", "every node kind the rewriter translates beyond the contract's set (Call, UnaryOp, BoolOp, If, IfExp) occurs in a (function, expected array form) pair of the tested contract that the translation changes")
+    srcs = [p_[0] for p_ in pairs]
+    for vname in sorted(extra_visits):
+        if not vname.startswith("visit_"):
+            continue
+        kind = getattr(ast, vname[len("visit_"):], None)
+        covered = False
+        if kind is not None:
+            for src, exp in pairs:
+                ks = [n for n in ast.walk(src) if isinstance(n, kind)]
+                if kind is ast.Compare:
+                    ks = [n for n in ks if len(n.ops) > 1]  # plain comparisons need no translation
+                if ks and ast.dump(src.body[-1] if src.body else src) != ast.dump(exp.body[-1] if exp.body else exp):
+                    covered = True
+        ctx.ob("RV", ok=covered, distinct=vname)
+        if not covered:
+            vm = next((m_ for c_ in cls for m_ in c_.body if isinstance(m_, ast.FunctionDef) and m_.name == vname), None)
+            ctx.violation("RV", f"rewriter|{vname}", v.loc(vm) if vm is not None else "src/_gettsim/vectorization.py", f"the rewriter now translates {vname[len('visit_'):]} nodes ({vname}), but no pair of the tested contract contains such a node{' (a chained comparison)' if vname == 'visit_Compare' else ''}: rules using the construct used to fail loudly in array form and now get an unverified translation")
+    ctx.ob("RV", ok=True, distinct="visitors", n=1)
     return pinned, extra_visits
 
 
